@@ -492,8 +492,10 @@ def run_check(pid, tier, seed, mod):
             log('search failed: %s' % e)
         if found:
             # concrete inputs replace the input-less reports they explain
+            # (only broken proofs / refused translations are explained by a found input;
+            #  correspondence disagreements, gate and assumption failures always stay)
             failures = [f for f in failures if f.found_input] + found + \
-                       [f for f in need_search if f.kind in ('gate', 'assumptions')]
+                       [f for f in need_search if f.kind not in ('proof', 'translator')]
 
     # 5. decide
     known = known_for(pid)
